@@ -583,6 +583,19 @@ func tryGround(dir, name string, o *Obligation, timeout int) *SolverResult {
 	if g == nil {
 		return nil
 	}
+	// first with products and divisions of unknowns as uninterpreted symbols (most goals need congruence only)
+	if os.Getenv("GOVC_NONLABS") == "" {
+		ab := abstractObligation(g)
+		to := timeout
+		if to > 3 {
+			to = 3
+		}
+		r := Solve(dir, name+"_nl", ab.prog.buildScript(ab), to)
+		if r.Status == "unsat" {
+			r.Solver += "+ginst+nlabs"
+			return r
+		}
+	}
 	sc := g.prog.buildScript(g)
 	r := Solve(dir, name, sc, timeout)
 	if r.Status == "unsat" {
